@@ -23,6 +23,8 @@ NOT_YET = {}
 exec(open(os.path.join(ROOT, "harness", "manifest_pending.py")).read())
 
 props = [json.loads(l)["id"] for l in open(os.path.join(ROOT, "properties.jsonl"))]
+ENABLED = set(open(os.path.join(ROOT, "harness", "manifest_enabled.txt")).read().split())
+CHECKS = {k: v for k, v in CHECKS.items() if k in ENABLED}
 checks = []
 na = []
 for pid in props:
